@@ -201,6 +201,7 @@ func Run(r *fw.Run) {
 	r.Assume = []string{"reference model props/modedit/model.go follows the operations' doc comments (first match updated, later ones removed, append otherwise; exclude/tool keep the first duplicate, replace keeps the last when blocks are sorted)", "seeds avoid commented retract blocks (a line added to one inherits the block comment as rationale by parser semantics)"}
 	modedit.Explore(r, false, modedit.ModSeeds, ops, depth, checker{})
 	modedit.Explore(r, true, modedit.WorkSeeds, wops, depth+1, checker{})
+	modedit.ArgSweep(r, checker{}, r.Pick(3, 4))
 	r.Sample(modedit.Case{Work: false, SeedIdx: 5, Seed: modedit.ModSeeds[5], Hist: []modedit.Op{{Kind: "AddReplace", A: []string{"a.com/x", "", "c.com/z", "v1.2.0"}}, {Kind: "DropReplace", A: []string{"a.com/x", ""}}}, Check: "state"})
 }
 
